@@ -111,7 +111,7 @@ func checkC13IssID(t *Toks) string {
 				return fail("ComputeEntropy", "differs-from-elements-derivation")
 			}
 		} else if err == nil {
-			// not an Elements contract hash (uint256): a value here cannot be the Elements entropy
+			// not an Elements contract hash (uint256): must be refused (repaired by 09b8e78)
 			verdict = fail("ComputeEntropy.contract-hash-length", "accepted")
 		}
 	}
@@ -415,10 +415,7 @@ func checkC13IssV2(t *Toks) string {
 	verdict := "OK"
 	if d := issMismatch(utx.Inputs[c.idx].Issuance, &wantIss); d != "" {
 		verdict = fail("psetv2.UnsignedTx.issuance", d)
-		// a token-only issuance trips both transaction views; report them on alternating cases
-		if d != "explicit-zero-asset-amount" || wantAmounts[len(wantAmounts)-1]%2 == 0 {
-			return verdict
-		}
+		return verdict
 	}
 	etx, err := issExtractTx(p)
 	if err != nil {
